@@ -243,6 +243,71 @@ def check_outline(sc):
     return None
 
 
+def check_embedded(sc, heads, ox, oy):
+    """arrowheads that terminate a line which is part of a bigger connected figure: each becomes a filled polygon
+    in its cell with the tip beyond the line's end (the rest of the figure is not judged here)"""
+    polys = [e for e, _ in sc.flat() if e[0] == 'polygon']
+    texts = [e for e, _ in sc.flat() if e[0] == 'text']
+    for (x, y, g, d) in heads:
+        cx0, cy0 = F((ox + x) * 8), F((oy + y) * 16)
+        inside = [p for p in polys if all(cx0 - 8 <= vx <= cx0 + 16 and cy0 - 16 <= vy <= cy0 + 32 for vx, vy in p[2])]
+        ok = False
+        for p in inside:
+            xs = [v[0] for v in p[2]]
+            ys = [v[1] for v in p[2]]
+            if 'filled' not in p[1] or len(p[2]) != 3:
+                continue
+            # the tip is the vertex farthest in the direction of travel and lies on the axis through the cell centre
+            if d == 'right' and any(v[1] == cy0 + 8 and v[0] == max(xs) and v[0] > cx0 for v in p[2]):
+                ok = True
+            if d == 'left' and any(v[1] == cy0 + 8 and v[0] == min(xs) and v[0] < cx0 + 8 for v in p[2]):
+                ok = True
+            if d == 'down' and any(v[0] == cx0 + 4 and v[1] == max(ys) and v[1] > cy0 for v in p[2]):
+                ok = True
+            if d == 'up' and any(v[0] == cx0 + 4 and v[1] == min(ys) and v[1] < cy0 + 16 for v in p[2]):
+                ok = True
+        if not ok:
+            shown = [t for t in texts if t[4] and g in t[4]]
+            return 'the %r at column %d, row %d ends a line towards %s but there is no filled polygon with its tip on that axis in the cell%s' % (
+                g, x, y, d, ' (the character is shown as text)' if shown else '')
+    return None
+
+
+def embedded_case(rng):
+    """a random figure over - | + with arrowheads planted where a line ends in free space"""
+    w, h = rng.randint(6, 16), rng.randint(4, 9)
+    dens = rng.choice([0.25, 0.4, 0.55])
+    g = [[(rng.choice('-|+') if rng.random() < dens else ' ') for _ in range(w)] for _ in range(h)]
+    if rng.random() < 0.5:
+        # a scaffold: a trunk on the left with branches, a box on the upper right
+        for y in range(h):
+            g[y][0] = '|' if y % 2 else '+'
+            if y % 2 == 0:
+                g[y][1] = '-'
+    def free(x, y):
+        return not (0 <= x < w and 0 <= y < h) or g[y][x] == ' '
+    heads = []
+    cand = []
+    for y in range(h):
+        for x in range(w):
+            if g[y][x] == '-' and x + 1 < w and all(free(x + 1 + dx, y + dy) for dx in (0, 1) for dy in (-1, 0, 1)):
+                cand.append((x + 1, y, '>', 'right'))
+            if g[y][x] == '-' and x - 1 >= 0 and all(free(x - 1 - dx, y + dy) for dx in (0, 1) for dy in (-1, 0, 1)):
+                cand.append((x - 1, y, '<', 'left'))
+            if g[y][x] == '|' and y + 1 < h and all(free(x + dx, y + 1 + dy) for dx in (-1, 0, 1) for dy in (0, 1)):
+                cand.append((x, y + 1, rng.choice('vV'), 'down'))
+            if g[y][x] == '|' and y - 1 >= 0 and all(free(x + dx, y - 1 - dy) for dx in (-1, 0, 1) for dy in (0, 1)):
+                cand.append((x, y - 1, '^', 'up'))
+    rng.shuffle(cand)
+    for c in cand[:3]:
+        x, y = c[0], c[1]
+        if g[y][x] != ' ' or any(abs(x - hx) <= 2 and abs(y - hy) <= 2 for hx, hy, _, _ in heads):
+            continue
+        g[y][x] = c[2]
+        heads.append(c)
+    return [''.join(r).rstrip() for r in g], heads
+
+
 def check_case(ctx, case):
     rows = case['rows']
     ox, oy = case['ox'], case['oy']
@@ -276,6 +341,8 @@ def check_case(ctx, case):
     elif k == 'combo':
         bx, by = case['at']
         msg = check_combo(sc, case['bullet'], F((ox + bx) * 8 + 4), F((oy + by) * 16 + 8), case['what'])
+    elif k == 'embedded':
+        msg = check_embedded(sc, case['heads'], ox, oy)
     else:
         msg = check_outline(sc)
     if msg:
@@ -289,6 +356,17 @@ STYLES = [(".", ".", "'", "'"), (",", ".", "`", "'"), ("╭", "╮", "╰", "╯
 def run_shard(ctx, shard):
     k = shard['kind']
     offs = [(0, 0), (3, 2)]
+    if k == 'embedded':
+        rng = rng_for(ctx.seed, ID, shard['name'])
+        for i in range(shard['n']):
+            rows, heads = embedded_case(rng)
+            if not heads:
+                continue
+            ctx.run_case({'kind': 'embedded', 'what': 'figure', 'glyph': ''.join(hd[2] for hd in heads), 'n': len(heads), 'rows': rows, 'heads': heads,
+                          'ox': rng.choice([0, 3]), 'oy': rng.choice([0, 2])})
+            if i == 0:
+                ctx.sample({'embedded': rows})
+        return
     if k == 'arrows':
         for dirn, g, n, rows in arrow_cases(shard['lengths']):
             for ox, oy in offs:
@@ -370,6 +448,7 @@ def execute(run):
             shards += [{'kind': 'outlines', 'name': 'outlines-%d-%d' % (st, i), 'style': st, 'widths': list(range(1 + i, 31, 6)), 'heights': list(range(1, 16))} for i in range(6)]
         run.extra_cov['exhaustive_scopes'] = ['arrow glyphs x 8 directions x lengths 1..40 x 2 offsets', 'bullets x 10 placements x lengths 1..40 x 2 offsets',
                                               'rounded outlines 1..30 x 1..15 x 3 styles x 3 stub placements']
+    shards += [{'kind': 'embedded', 'name': 'embedded-%d' % i, 'n': 1500 if run.tier == 'quick' else 12000} for i in range(8)]
     run.run_shards(binary, shards)
 
 
